@@ -453,9 +453,10 @@ Definition spec_step (cfg : config) (d : wdecl) (qs : list (list qparam)) (st : 
                   (* known class F3 (typed handle whose packed id is another archetype's): only memory
                      safety is required; a successful destroy removed an entity the trace does not identify *)
                   match t, obs with
-                  | (TUnchecked a | TMut a), 1%N :: _ =>
+                  | (TUnchecked a | TMut a), 1%N :: rest =>
                       if is_destroy then match w !! a with Some x => inr (set_sarch st w a (sarch_remove_unknown x)) | None => inr st end
-                      else inr st
+                      else if is_probe then inr st
+                      else match rest with [dk; dv] => inr (add_direct st (dk, dv) []) | _ => inr st end   (* to_direct: the handle table grows *)
                   | _, _ => inr st
                   end
               | EAbsent =>
@@ -532,9 +533,10 @@ Definition spec_step (cfg : config) (d : wdecl) (qs : list (list qparam)) (st : 
               | EExact e => if lNeqb obs e then inr st else fail 9 20
               | ESkip =>
                   match t, obs with
-                  | (TUnchecked a | TMut a), 1%N :: _ =>
+                  | (TUnchecked a | TMut a), 1%N :: rest =>
                       if is_destroy then match w !! a with Some x => inr (set_sarch st w a (sarch_remove_unknown x)) | None => inr st end
-                      else inr st
+                      else if is_probe then inr st
+                      else match rest with [dk; dv] => inr (add_direct st (dk, dv) []) | _ => inr st end   (* to_direct: the handle table grows *)
                   | _, _ => inr st
                   end
               | EAbsent =>
